@@ -12,6 +12,10 @@ def monitor_e2e(c):
     seen = set()
     hi = None
     for pos, (idx, got) in enumerate(zip(c["script"], c["delivered"])):
+        if idx < 0:
+            if got != -1:
+                return "a ChangeCipherSpec record (arrival %d) made Read return payload %d" % (pos, got)
+            continue
         seq = c["seqs"][idx]
         if got != -1 and got != idx:
             return "arrival %d of record %d delivered payload %d" % (pos, idx, got)
@@ -88,9 +92,11 @@ def run(chk):
             def ep(c, i):
                 return "(%d,%d)" % (c["epochs"][i], c["seqs"][i])
             pre_ep = lambda c: clist(["(%d,%d)" % (c["epochs"][0] if c["epochs"] else 1, q) for q in c["pre"]])
+            # ChangeCipherSpec arrivals (script index -1) are inert for the window model: they are left out
+            # of the model's input (the monitor above checks that they deliver nothing)
             eterms = ["(%d%%nat, %s, %s, %s)" % (
-                c["w"], pre_ep(c), clist([ep(c, i) for i in c["script"]]),
-                clist([cbool(d != -1) for d in c["delivered"]])) for c in e2e]
+                c["w"], pre_ep(c), clist([ep(c, i) for i in c["script"] if i >= 0]),
+                clist([cbool(d != -1) for i, d in zip(c["script"], c["delivered"]) if i >= 0])) for c in e2e]
             bad, err = vlib.coq_mismatches("c06e", IMPORTS, "e2e_ep_case", "e2e_ep_ok", eterms)
             if bad is None:
                 chk.broken("correspondence evaluation (e2e) failed in coqc", err)
